@@ -401,11 +401,21 @@ func (h kvHandler) handleKvBatchRollback(req *kvrpcpb.BatchRollbackRequest) *kvr
 func (h kvHandler) handleKvScanLock(req *kvrpcpb.ScanLockRequest) *kvrpcpb.ScanLockResponse {
 	startKey := MvccKey(h.startKey).Raw()
 	endKey := MvccKey(h.endKey).Raw()
+	// the scan window is the request's [start_key, end_key) clipped to the region; at most `limit` locks (0 = no limit)
+	if len(req.GetStartKey()) > 0 && bytes.Compare(req.GetStartKey(), startKey) > 0 {
+		startKey = req.GetStartKey()
+	}
+	if len(req.GetEndKey()) > 0 && (len(endKey) == 0 || bytes.Compare(req.GetEndKey(), endKey) < 0) {
+		endKey = req.GetEndKey()
+	}
 	locks, err := h.mvccStore.ScanLock(startKey, endKey, req.GetMaxVersion())
 	if err != nil {
 		return &kvrpcpb.ScanLockResponse{
 			Error: convertToKeyError(err),
 		}
+	}
+	if limit := int(req.GetLimit()); limit > 0 && len(locks) > limit {
+		locks = locks[:limit]
 	}
 	return &kvrpcpb.ScanLockResponse{
 		Locks: locks,
